@@ -502,3 +502,23 @@ impl VisitorStackElement {
         }
     }
 }
+
+/// Verification hook: run [`find_cycles`] on a graph given by its number of nodes and its edges.
+#[cfg(pavex_verif)]
+pub fn verif_find_cycles(n_nodes: usize, edges: &[(usize, usize)]) -> Vec<Vec<usize>> {
+    let mut graph = RawDependencyGraph::new();
+    let nodes: Vec<NodeIndex> = (0..n_nodes)
+        .map(|i| {
+            graph.add_node(DependencyGraphNode::Compute {
+                component_id: ComponentId::from_raw(la_arena::RawIdx::from(i as u32)),
+            })
+        })
+        .collect();
+    for &(from, to) in edges {
+        graph.update_edge(nodes[from], nodes[to], ());
+    }
+    find_cycles(&graph)
+        .into_iter()
+        .map(|cycle| cycle.into_iter().map(|i| i.index()).collect())
+        .collect()
+}
